@@ -19,7 +19,7 @@ open Finset BigOperators Matrix
 set_option linter.unusedSectionVars false
 
 namespace GT.C18
-open GT
+open GT GT.Iso GT.GS GT.Diag GT.Arcs
 
 section gs
 variable {K : Type*} [Field K] [LinearOrder K] [IsStrictOrderedRing K] {n : ℕ} {r : K → K}
